@@ -18,6 +18,7 @@ from sa.rules import fwd as FW
 from sa.rules import mod as M
 from sa.rules import null as N
 from sa.rules import order as O
+from sa.rules import pitfall as PT
 from sa.rules import table as TB
 from sa.rules import typeflow as T
 from sa.rules import visit as V
@@ -64,6 +65,11 @@ def det3(name, *roots):
     return scoped(D.rule_det3, "det3_" + name, *roots)
 
 
+def pit(name, *roots):
+    """LATE-BIND / STALE-CAPTURE / SHARED-DEFAULT / STR-MEMBER over the property's code region (thorough: whole package)"""
+    return scoped(PT.rule_pitfalls, "pitfalls_" + name, *roots)
+
+
 FWD_ACCEPTED = {
     ("docstring_parsers.parse_docstring", "option-not-forwarded:default_search_announce->emitter_utils.interpolate_defaults"):
         "outside every property's domain (they quantify over the four built-in announcement phrases); observed and noted in DESIGN: the ReST phase ignores a custom "
@@ -82,7 +88,7 @@ DET1_ACCEPTED = {
 
 spec("C01", "Docstring round trip",
      [TB.rule_table_style, N.rule_null2, coord("rule_coord_docstring", "docstring_parsers.parse_docstring", "emit.docstring"),
-      det3("docstring", "emit.docstring", "docstring_parsers.parse_docstring")],
+      det3("docstring", "emit.docstring", "docstring_parsers.parse_docstring"), pit("docstring", "emit.docstring", "docstring_parsers.parse_docstring")],
      "Necessary conditions decided on the source: (TABLE-style) per docstring style, every section header / line marker the emitter writes contains a "
      "detection token of that style, none of a style detected earlier, and is a header the style's scanner splits on; ARG/RETURN token tables are subsets of "
      "TOKENS. (NULL-2) the pending-parameter slot [None, {}] of the ReST parser cannot reach the name post-processing, which dereferences the name, without a "
@@ -92,7 +98,7 @@ spec("C01", "Docstring round trip",
      not_decided="IR equality after emit->parse (values); prose that itself contains a marker of another style; exceptions other than the definite None dereference")
 
 spec("C02", "Config-class round trip",
-     [named(O.rule_order, "rule_order_class", only=("emit.class_",)), TB.rule_table_cvar, scoped(FA.rule_falsy, "falsy_class", "emit.class_", "parse.class_"), named(FW.rule_fwd, "rule_fwd", accepted=FWD_ACCEPTED), det3("class", "emit.class_", "parse.class_")],
+     [named(O.rule_order, "rule_order_class", only=("emit.class_",)), TB.rule_table_cvar, scoped(FA.rule_falsy, "falsy_class", "emit.class_", "parse.class_"), named(FW.rule_fwd, "rule_fwd", accepted=FWD_ACCEPTED), det3("class", "emit.class_", "parse.class_"), pit("class", "emit.class_", "parse.class_")],
      "Necessary conditions: (ORDER) the class emitter produces exactly one attribute per parameter, in mapping order, never None, named by the parameter's key, with "
      "no filter/sort between the mapping and the attribute list; (TABLE-cvar) the ':cvar' marker and the reserved 'return_type' attribute written by the class "
      "emitter are exactly what the class and function parsers substitute / pop back. (FWD) an option the caller was given (word_wrap, emit_default_doc, docstring_format, ...) is forwarded to every callee that has the same option with a default - directly, through a partial or a wrapper; the confirmed exceptions are listed with reasons (props.FWD_ACCEPTED) or lie on the live-object path. (DET-3, scoped) no function on this property's code path writes state that outlives the call (module globals/objects, function or class attributes, mutated mutable defaults, memoised mutable results): the conversion is not history-dependent.",
@@ -102,7 +108,7 @@ spec("C02", "Config-class round trip",
 
 spec("C03", "Function / method round trip",
      [named(O.rule_order, "rule_order_function", only=("emit.function",)), A.rule_align_emit, A.rule_align_parse, TB.rule_table_kind, N.rule_null1, N.rule_null2,
-      scoped(FA.rule_falsy, "falsy_function", "emit.function", "parse.function"), named(FW.rule_fwd, "rule_fwd", accepted=FWD_ACCEPTED), O.rule_kwarg_last, det3("function", "emit.function", "parse.function")],
+      scoped(FA.rule_falsy, "falsy_function", "emit.function", "parse.function"), named(FW.rule_fwd, "rule_fwd", accepted=FWD_ACCEPTED), O.rule_kwarg_last, det3("function", "emit.function", "parse.function"), pit("function", "emit.function", "parse.function")],
      "Necessary conditions: (ORDER) one argument per non-**kwargs parameter in order, named by the key, with the name-only **kwargs partition and its complement both "
      "consumed; (ALIGN-emit) defaults/kw_defaults are built one per argument from the same sequence (symbolic length identities over all paths); (ALIGN-parse) "
      "signature defaults are padded to exactly the argument count and keep their positions; (TABLE-kind) self/cls/static and the **kwargs suffix agree between "
@@ -114,7 +120,7 @@ spec("C03", "Function / method round trip",
 spec("C04", "argparse round trip",
      [named(O.rule_order, "rule_order_argparse", only=("emit.argparse_function",)), TB.rule_table_argparse,
       scoped(FA.rule_falsy, "falsy_argparse", "emit.argparse_function", "parse.argparse_ast"), scoped(FA.rule_stripset, "stripset_argparse", "emit.argparse_function", "parse.argparse_ast"),
-      coord("rule_coord_defaults", "defaults_utils.extract_default", "defaults_utils.set_default_doc"), named(FW.rule_fwd, "rule_fwd", accepted=FWD_ACCEPTED), det3("argparse", "emit.argparse_function", "parse.argparse_ast")],
+      coord("rule_coord_defaults", "defaults_utils.extract_default", "defaults_utils.set_default_doc"), named(FW.rule_fwd, "rule_fwd", accepted=FWD_ACCEPTED), det3("argparse", "emit.argparse_function", "parse.argparse_ast"), pit("argparse", "emit.argparse_function", "parse.argparse_ast")],
      "Necessary conditions: (ORDER) exactly one add_argument call per parameter, in order, carrying '--<key>'; (TABLE-argparse) every keyword by which the emitter "
      "carries IR information is read by the parser, the '--' prefix added is the prefix stripped, the recogniser predicates test both receiver and attribute the "
      "emitter builds, written action constants are understood. (COORD) no position measured on a transformed copy of the prose (strip / casefold / replace change lengths; also through a search helper given a normalising callable) is used to cut the original prose. (FWD) an option the caller was given (word_wrap, emit_default_doc, docstring_format, ...) is forwarded to every callee that has the same option with a default - directly, through a partial or a wrapper; the confirmed exceptions are listed with reasons (props.FWD_ACCEPTED) or lie on the live-object path. (DET-3, scoped) no function on this property's code path writes state that outlives the call (module globals/objects, function or class attributes, mutated mutable defaults, memoised mutable results): the conversion is not history-dependent.",
@@ -124,7 +130,7 @@ spec("C04", "argparse round trip",
 
 spec("C06", "Emitted code is valid Python",
      [A.rule_align_emit, O.rule_order, CT.rule_ctor, scoped(FA.rule_falsy, "falsy_emit", "emit.class_", "emit.function", "emit.argparse_function"),
-      det3("emit", "emit.class_", "emit.function", "emit.argparse_function", "emit.file"), F.rule_file5],
+      det3("emit", "emit.class_", "emit.function", "emit.argparse_function", "emit.file"), pit("emit", "emit.class_", "emit.function", "emit.argparse_function", "emit.file"), F.rule_file5],
      "Necessary conditions, for all inputs: (ALIGN-emit) every ast.arguments(...) the package builds satisfies Python's length invariants and aligns defaults with "
      "arguments as symbolic identities; (ORDER) names/order/count of attributes, arguments and options are those of the IR by construction; (CTOR) every ast node "
      "construction supplies the mandatory _fields of the running interpreter. (DET-3, scoped) no function on this property's code path writes state that outlives the call (module globals/objects, function or class attributes, mutated mutable defaults, memoised mutable results): the conversion is not history-dependent.",
@@ -134,7 +140,7 @@ spec("C06", "Emitted code is valid Python",
 
 spec("C07", "Parsing faithful to Python's view",
      [lambda prog, rep, tier: D.rule_det1(prog, rep, tier, scope=prog.reachable([prog.fn("parse.function"), prog.fn("parse.class_")]), accepted=DET1_ACCEPTED),
-      A.rule_align_parse, O.rule_sigcover, O.rule_first_match, O.rule_kwarg_last, det3("parse", "parse.function", "parse.class_")],
+      A.rule_align_parse, O.rule_sigcover, O.rule_first_match, O.rule_kwarg_last, det3("parse", "parse.function", "parse.class_"), pit("parse", "parse.function", "parse.class_")],
      "Necessary conditions: (DET-1) on the parse path no iteration order of an unordered collection reaches the parameter mapping (order independent of run-to-run "
      "variation); (ALIGN-parse) signature defaults stay aligned with their arguments; (SIGCOVER) args, kwonlyargs and **kwarg each reach the result on some read that "
      "is not guarded by docstring-derived data; (FIRST-MATCH) the method merged into a class is the first definition of that name in breadth-first order (the class's own, not a nested class's). (KWARG-LAST) a documented `**kwargs` is out of the parameter mapping while the signature merge appends the undocumented parameters and is inserted (or moved to the end) afterwards, so it stays the last parameter as in the signature. (DET-3, scoped) no function on this property's code path writes state that outlives the call (module globals/objects, function or class attributes, mutated mutable defaults, memoised mutable results): the conversion is not history-dependent.",
@@ -144,7 +150,7 @@ spec("C07", "Parsing faithful to Python's view",
 
 spec("C08", "Fixed point after one pass",
      [TB.rule_table_announce, scoped(FA.rule_falsy, "falsy_defaults", "defaults_utils.set_default_doc", "defaults_utils.extract_default", "emitter_utils.interpolate_defaults"),
-      coord("rule_coord_defaults", "defaults_utils.extract_default", "defaults_utils.set_default_doc"), named(FW.rule_fwd, "rule_fwd", accepted=FWD_ACCEPTED), det3("all", "emit.docstring", "emit.class_", "emit.function", "emit.argparse_function", "parse.docstring", "parse.class_", "parse.function", "parse.argparse_ast"),
+      coord("rule_coord_defaults", "defaults_utils.extract_default", "defaults_utils.set_default_doc"), named(FW.rule_fwd, "rule_fwd", accepted=FWD_ACCEPTED), det3("all", "emit.docstring", "emit.class_", "emit.function", "emit.argparse_function", "parse.docstring", "parse.class_", "parse.function", "parse.argparse_ast"), pit("all", "emit.docstring", "emit.class_", "emit.function", "emit.argparse_function", "parse.docstring", "parse.class_", "parse.function", "parse.argparse_ast"),
       C.rule_call_dispatch],
      "Necessary condition: (TABLE-announce b) each writer of the default sentence recognises its own sentence as 'already present' - either by calling the reader "
      "itself or by a substring of the written phrase - otherwise one more sentence is appended on every pass. (COORD) no position measured on a transformed copy of the prose (strip / casefold / replace change lengths; also through a search helper given a normalising callable) is used to cut the original prose. (FWD) an option the caller was given (word_wrap, emit_default_doc, docstring_format, ...) is forwarded to every callee that has the same option with a default - directly, through a partial or a wrapper; the confirmed exceptions are listed with reasons (props.FWD_ACCEPTED) or lie on the live-object path. (DET-3, scoped) no function on this property's code path writes state that outlives the call (module globals/objects, function or class attributes, mutated mutable defaults, memoised mutable results): the conversion is not history-dependent.",
@@ -153,7 +159,7 @@ spec("C08", "Fixed point after one pass",
      not_decided="byte identity of the 2nd and 3rd emission in general (quote guards, indentation, wrapping are value-level)")
 
 spec("C09", "sync makes targets agree",
-     [C.rule_call_direct, C.rule_call_dispatch, C2.rule_cli2, V.rule_visit1, F.rule_file5, F.rule_file2b, F.rule_file2c, M.rule_modf2_conform, det3("sync", "conformance.ground_truth")],
+     [C.rule_call_direct, C.rule_call_dispatch, C2.rule_cli2, V.rule_visit1, F.rule_file5, F.rule_file2b, F.rule_file2c, M.rule_modf2_conform, det3("sync", "conformance.ground_truth"), pit("sync", "conformance.ground_truth")],
      "Necessary conditions: (CALL) every call through the sync dispatch table binds to its callee's signature for every table row and branch (create / append / replace), "
      "on top of 290+ directly resolved calls; (CLI-2) no accepted combination of the three kinds dereferences an option that was not given (192 abstract states); (VISIT-1) "
      "every visit_<T> override of the replacer replaces under the location predicate or delegates; (FILE-5) an appended definition starts on a new line; (FILE-2c) an "
@@ -163,7 +169,7 @@ spec("C09", "sync makes targets agree",
      not_decided="that the parsed targets equal the truth IR (values); method target absent from the file (a bare function is appended)")
 
 spec("C10", "sync idempotent / truth untouched / truthful report",
-     [F.rule_file0, F.rule_file1_truth, F.rule_file1b, F.rule_file2, F.rule_file2b, C.rule_call_dispatch, F.rule_file5, det3("sync", "conformance.ground_truth")],
+     [F.rule_file0, F.rule_file1_truth, F.rule_file1b, F.rule_file2, F.rule_file2b, C.rule_call_dispatch, F.rule_file5, det3("sync", "conformance.ground_truth"), pit("sync", "conformance.ground_truth")],
      "Necessary conditions: (FILE-1) every call from the sync worker that can reach a write sink is guarded by a comparison of the target filename with the truth file; (FILE-1b) both sides of that comparison are canonicalised by the same path functions; (CALL-SIB) the create / append / replace branches emit with the same option flags; "
      "(FILE-2) on every enumerated path of _conform_filename the returned and printed changed-flag is true iff a write lies on the path; (FILE-2b) the in-place rewrite is "
      "control-dependent on an AST-inequality test. (FILE-5) a definition appended to an existing file starts on a new line after every other transformation of the text (otherwise it is glued to the last line, is not found by the next run, and is appended again). (DET-3, scoped) no function on this property's code path writes state that outlives the call (module globals/objects, function or class attributes, mutated mutable defaults, memoised mutable results): the conversion is not history-dependent.",
@@ -172,7 +178,7 @@ spec("C10", "sync idempotent / truth untouched / truthful report",
      not_decided="byte identity of a second run (needs emit.parse to be a fixed point: value-level); growth by repeated append when the lookup cannot find what was appended")
 
 spec("C11", "sync preserves the rest",
-     [named(M.rule_modf, "rule_modf_sync", workers=("conformance._conform_filename",)), F.rule_file5, F.rule_file3, V.rule_visit2, V.rule_visit6, V.rule_visit4, V.rule_visit4b, det3("sync", "conformance.ground_truth")],
+     [named(M.rule_modf, "rule_modf_sync", workers=("conformance._conform_filename",)), F.rule_file5, F.rule_file3, V.rule_visit2, V.rule_visit6, V.rule_visit4, V.rule_visit4b, det3("sync", "conformance.ground_truth"), pit("sync", "conformance.ground_truth")],
      "Necessary conditions: (MOD-F) between reading a target module and writing it back the only field-visible writes on the tree are the replacer's or identity-preserving "
      "re-listings, the reader's docstring re-indent being disabled at the call site; (FILE-5) appended text starts on a new line so the file still parses; (VISIT-2) at most "
      "one node is replaced; (VISIT-6) locations are compared by exact equality; (VISIT-4) locations are built inductively, so only the addressed node can match. (DET-3, scoped) no function on this property's code path writes state that outlives the call (module globals/objects, function or class attributes, mutated mutable defaults, memoised mutable results): the conversion is not history-dependent.",
@@ -181,7 +187,7 @@ spec("C11", "sync preserves the rest",
      not_decided="that black/ast.unparse keep every other statement's tree (trusted); statements inside a replaced function (function targets are never replaced today: VISIT-1)")
 
 spec("C12", "Deterministic output",
-     [named(D.rule_det1, "rule_det1_all", accepted=DET1_ACCEPTED), D.rule_det1b, D.rule_det2, D.rule_det3],
+     [named(D.rule_det1, "rule_det1_all", accepted=DET1_ACCEPTED), D.rule_det1b, D.rule_det2, D.rule_det3, named(PT.rule_pitfalls, "rule_pitfalls_all")],
      "Full structural claim over every function of the package: (DET-1) no iteration order of an unordered collection (set displays/calls, set algebra on dict views, names/"
      "parameters/attributes that only receive such values) has an order-sensitive effect; (DET-1b) key order of parameter dicts is unobservable; (DET-2) no volatile source "
      "(id, hash, clocks, random, pid, unsorted listings, environment other than the documented width) anywhere; (DET-3) no function writes state that outlives the call "
@@ -191,7 +197,7 @@ spec("C12", "Deterministic output",
      not_decided="nothing structural is left out; trusted: determinism of ast, textwrap, black, yaml, json, pickle for the values they are given; objects with address-bearing repr are outside the input domain")
 
 spec("C13", "Non-interference through shared inputs",
-     [M.rule_mod1_2, M.rule_mod3, M.rule_modf2_conform, det3("all", "emit.docstring", "emit.class_", "emit.function", "emit.argparse_function", "parse.docstring", "parse.class_", "parse.function", "parse.argparse_ast")],
+     [M.rule_mod1_2, M.rule_mod3, M.rule_modf2_conform, det3("all", "emit.docstring", "emit.class_", "emit.function", "emit.argparse_function", "parse.docstring", "parse.class_", "parse.function", "parse.argparse_ast"), pit("all", "emit.docstring", "emit.class_", "emit.function", "emit.argparse_function", "parse.docstring", "parse.class_", "parse.function", "parse.argparse_ast")],
      "Decided by an alias/ownership abstraction of the dict IR (levels IR / params-returns / parameter dict / carried body): (MOD-1) no emitter changes the shape (keys, "
      "parameter set, order) of the IR it was given; (MOD-2) carried body nodes are not transformed in place; (MOD-5) no emit-path helper writes into a parameter dict "
      "of the caller's IR (every such write goes to an owned copy); (MOD-3) parsers write AST fields of their input only after rebinding it to a copy on every path; (MOD-F2) the node sync grafts into a target's tree is built afresh for that target (a constructor call, a deepcopy or a result of a dispatch-table emitter, all of which return constructor calls), never handed back from a cache or container shared between the targets of one run. (DET-3, scoped) no function on this property's code path writes state that outlives the call (module globals/objects, function or class attributes, mutated mutable defaults, memoised mutable results): the conversion is not history-dependent.",
@@ -200,7 +206,7 @@ spec("C13", "Non-interference through shared inputs",
      not_decided="value-level effects of reads; helpers reached only through unresolved dynamic calls")
 
 spec("C14", "sync_properties changes exactly the addressed property",
-     [F.rule_file1_input, F.rule_file7, O.rule_pairs_all, named(M.rule_modf, "rule_modf_sync_properties", workers=("sync_properties.sync_properties",)), M.rule_modf2, CLI.rule_cli1, A.rule_align_idx, det3("sync_properties", "sync_properties.sync_properties")],
+     [F.rule_file1_input, F.rule_file7, O.rule_pairs_all, named(M.rule_modf, "rule_modf_sync_properties", workers=("sync_properties.sync_properties",)), M.rule_modf2, CLI.rule_cli1, A.rule_align_idx, det3("sync_properties", "sync_properties.sync_properties"), pit("sync_properties", "sync_properties.sync_properties")],
      "Necessary conditions: (FILE-1) no value derived from the input filename reaches the path of a write sink; (FILE-7) the single write of the output file comes after all "
      "pairs and every returning path after the transformer ran tests `.replaced` with a raising failing branch; (MOD-F) only the addressed node is field-mutated on the "
      "read->write path; (MOD-F2) the node taken from the input tree is copied before it is mutated/grafted; (CLI-1) CLI dests bind to the worker's signature. (ALIGN-idx) an index used on `<fn>.args.defaults` comes from the positional argument list only (the `_idx` numbering restarts for keyword-only arguments), so replacing one argument cannot overwrite the default of another. (DET-3, scoped) no function on this property's code path writes state that outlives the call (module globals/objects, function or class attributes, mutated mutable defaults, memoised mutable results): the conversion is not history-dependent.",
@@ -209,7 +215,7 @@ spec("C14", "sync_properties changes exactly the addressed property",
      not_decided="that the addressed node is the right one (C15), eval mode (executes the input module)")
 
 spec("C15", "Dotted locations",
-     [named(V.rule_visit3, "rule_visit3", location_inductive=V.location_is_inductive), V.rule_visit4, V.rule_visit4b, V.rule_visit2, V.rule_visit6, A.rule_align_idx],
+     [named(V.rule_visit3, "rule_visit3", location_inductive=V.location_is_inductive), V.rule_visit4, V.rule_visit4b, V.rule_visit2, V.rule_visit6, A.rule_align_idx, pit("locations", "ast_utils.find_in_ast", "ast_utils.annotate_ancestry")],
      "Necessary conditions: (VISIT-3) typestate over the CFG of find_in_ast: a path segment is consumed only after the previous one was matched and a node is answered only "
      "in state MATCHED; (VISIT-3b) answers decided by `_location == search` alone are only accepted while the annotation is inductive; (VISIT-4) every `_location` is built "
      "from the parent's location; (VISIT-2) replace at most once; (VISIT-6) locations are compared by exact equality only. (ALIGN-idx) an index used on `<fn>.args.defaults` comes from the positional argument list only (the `_idx` numbering restarts for keyword-only arguments), so replacing one argument cannot overwrite the default of another.",
@@ -218,7 +224,7 @@ spec("C15", "Dotted locations",
      not_decided="full functional correctness of the resolver against an independent one")
 
 spec("C16", "Bodies carried verbatim",
-     [V.rule_visit5, TB.rule_table_argparse, M.rule_mod1_2, O.rule_ret_top, det3("bodies", "emit.class_", "emit.function", "emit.argparse_function", "parse.class_", "parse.function", "parse.argparse_ast")],
+     [V.rule_visit5, TB.rule_table_argparse, M.rule_mod1_2, O.rule_ret_top, det3("bodies", "emit.class_", "emit.function", "emit.argparse_function", "parse.class_", "parse.function", "parse.argparse_ast"), pit("bodies", "emit.class_", "emit.function", "emit.argparse_function", "parse.class_", "parse.function", "parse.argparse_ast")],
      "Necessary conditions: (VISIT-5) the parameter->self.<parameter> renamer rewrites only names in its set, handles every scope-introducing node kind, and its set is exactly "
      "the IR's parameter names as given (computed before the return entry is folded in); (TABLE-argparse) the argparse recognisers pin down receiver and attribute, so only "
      "the emitter's own statements are treated as interface and every other statement stays in the carried body. (RET-TOP) the return default is read from a top-level statement of the body only, which is what the function emitter's replacement of a trailing `return` assumes; a default taken from a nested block makes the re-emitted body one statement longer. (DET-3, scoped) no function on this property's code path writes state that outlives the call (module globals/objects, function or class attributes, mutated mutable defaults, memoised mutable results): the conversion is not history-dependent.",
@@ -229,7 +235,7 @@ spec("C16", "Bodies carried verbatim",
 spec("C17", "Defaults through prose",
      [TB.rule_table_announce, scoped(FA.rule_falsy, "falsy_defaults", "defaults_utils.set_default_doc", "defaults_utils.extract_default", "emitter_utils.interpolate_defaults"),
       coord("rule_coord", "defaults_utils.extract_default", "defaults_utils.set_default_doc"),
-      det3("defaults", "defaults_utils.set_default_doc", "defaults_utils.extract_default", "emitter_utils.interpolate_defaults")],
+      det3("defaults", "defaults_utils.set_default_doc", "defaults_utils.extract_default", "emitter_utils.interpolate_defaults"), pit("defaults", "defaults_utils.set_default_doc", "defaults_utils.extract_default", "emitter_utils.interpolate_defaults")],
      "Necessary conditions: (COORD) in the reader and the writer of default sentences no position measured on a transformed copy of the prose (strip / casefold / "
      "replace change lengths; also through a search helper given a normalising callable) is used to cut the original prose, which is how 'removing the sentence leaves the "
      "surrounding prose unchanged' breaks by a few characters; (TABLE-announce a) the sentence the writer produces contains an announcement the reader looks for; (c) the docstring writer skips writing a default "
@@ -239,7 +245,7 @@ spec("C17", "Defaults through prose",
      not_decided="the numeric/boolean coercion ladder, end-of-value scan, the arithmetic of the removal offsets themselves (character-level)")
 
 spec("C18", "Wrapping / line length transparent",
-     [T.rule_typeflow, T.rule_wrap_last, coord("rule_coord_defaults", "defaults_utils.extract_default", "defaults_utils.set_default_doc"), det3("emit", "emit.docstring", "emit.class_", "emit.function", "emit.argparse_function")],
+     [T.rule_typeflow, T.rule_wrap_last, coord("rule_coord_defaults", "defaults_utils.extract_default", "defaults_utils.set_default_doc"), det3("emit", "emit.docstring", "emit.class_", "emit.function", "emit.argparse_function"), pit("emit", "emit.docstring", "emit.class_", "emit.function", "emit.argparse_function")],
      "Necessary conditions: (TYPEFLOW) the configured width read from the environment passes int()/float() before every numeric sink (width= of textwrap, comparison with "
      "len()); (WRAP-LAST) no reader of prose (default-sentence scanner) is applied to an already word-wrapped string. (COORD) no position measured on a transformed copy of the prose (strip / casefold / replace change lengths; also through a search helper given a normalising callable) is used to cut the original prose. (DET-3, scoped) no function on this property's code path writes state that outlives the call (module globals/objects, function or class attributes, mutated mutable defaults, memoised mutable results): the conversion is not history-dependent.",
      floors={"TYPEFLOW": 2, "WRAP-LAST": 5},
@@ -247,7 +253,7 @@ spec("C18", "Wrapping / line length transparent",
      not_decided="parse(wrapped) == parse(unwrapped) in general")
 
 spec("C19", "gen writes one definition per entry",
-     [C.rule_call_getattr, F.rule_file6, F.rule_file6b, O.rule_allpair, O.rule_gen_layout, O.rule_first_match, CLI.rule_cli1, det3("gen", "gen.gen")],
+     [C.rule_call_getattr, F.rule_file6, F.rule_file6b, O.rule_allpair, O.rule_gen_layout, O.rule_first_match, CLI.rule_cli1, det3("gen", "gen.gen"), pit("gen", "gen.gen")],
      "Necessary conditions: (CALL) for each --type value the getattr(emit, ...) call binds to the selected emitter's signature; (FILE-6) the existing-output guard dominates "
      "the gen call with a no-return failing branch; (FIRST-MATCH) a class entry is described by its own `__init__` (first match in breadth-first order), not a nested class's; (ALL-PAIR) __all__ is built from the list filled exactly once per mapping entry with the expression that names the "
      "emitted definition, after the definitions are joined; (CLI-1) gen's CLI dests bind to gen's signature. (DET-3, scoped) no function on this property's code path writes state that outlives the call (module globals/objects, function or class attributes, mutated mutable defaults, memoised mutable results): the conversion is not history-dependent.",
@@ -256,7 +262,7 @@ spec("C19", "gen writes one definition per entry",
      not_decided="that each definition describes its source object; import hoisting")
 
 spec("C20", "Rejected or failing invocations never damage files",
-     [F.rule_file6, F.rule_file6b, F.rule_file6c, CLI.rule_cli1, C2.rule_cli2, C.rule_call_dispatch, C.rule_call_getattr, F.rule_file3, F.rule_file4],
+     [F.rule_file6, F.rule_file6b, F.rule_file6c, CLI.rule_cli1, C2.rule_cli2, C.rule_call_dispatch, C.rule_call_getattr, F.rule_file3, F.rule_file4, pit("cli", "__main__.main", "emit.file")],
      "Necessary conditions: (FILE-6) every path of main() reaching a worker has established that worker's validations with a no-return failing branch; (CLI-1) dests bind to "
      "worker signatures; (CLI-2, CALL) no accepted argument combination ends in a None dereference or an unbindable call; (FILE-3) emit.file renders and formats before it "
      "opens the file; (FILE-4) a file that may exist is replaced atomically.",
